@@ -22,6 +22,14 @@ func Run(o *drv.Out) {
 	}
 	// corpus first: the scenario in which the oracle found expired evidence accepted (repaired in c09f5c7)
 	runCorpusExpired(o)
+	// certificate results of a nested committee on the root chain (the slash list a proposer supplies there)
+	nCr := 3
+	if o.Tier == "thorough" {
+		nCr = 20
+	}
+	for i := 0; i < nCr; i++ {
+		runCertResultsCase(o, i)
+	}
 	for i := 0; i < nEv; i++ {
 		runEvidenceCase(o, i, i%3 == 2)
 	}
@@ -351,6 +359,7 @@ func runEvidenceCase(o *drv.Out, ci int, wired bool) {
 		}
 	}
 	var accepted []ev
+	var acceptedDS [][]*lib.DoubleSigner // what ProcessDSE returned for each accepted piece alone
 	budget := 70
 	if o.Tier == "thorough" {
 		budget = 300
@@ -376,6 +385,7 @@ func runEvidenceCase(o *drv.Out, ci int, wired bool) {
 		}
 		if ds := ec.process([]ev{e}, tag); len(ds) > 0 {
 			accepted = append(accepted, e)
+			acceptedDS = append(acceptedDS, ds)
 		}
 	}
 	// … pairs with deviated certificates, nil parts …
@@ -655,6 +665,51 @@ func runEvidenceCase(o *drv.Out, ci int, wired bool) {
 			fail(o, "C14:validate-panic", "ValidateByzantineEvidence panicked", map[string]any{"op": op, "history": tail(ec.hist, 30)})
 		}
 	}
+	// … replayed evidence inside a batch: the same validator is implicated at two root heights and the root chain has
+	// already slashed it for one of them; every order of the fresh and the replayed piece (the filter is per
+	// (validator, height) pair, not per validator) …
+	func() {
+		for i := range accepted {
+			for j := range accepted {
+				hi, hj := accepted[i].a.qc.Header.RootHeight, accepted[j].a.qc.Header.RootHeight
+				if hi == hj {
+					continue
+				}
+				for _, di := range acceptedDS[i] {
+					for _, dj := range acceptedDS[j] {
+						if string(di.Id) != string(dj.Id) {
+							continue
+						}
+						fresh, replayed, v := accepted[i], accepted[j], di.Id
+						ec.c.slashed[fmt.Sprintf("%s@%d", drv.Hex(v), hj)] = true
+						ec.op(ec.c.envLine(net, chain, ec.b.RootHeight), "ok")
+						for _, batch := range [][]ev{{fresh, replayed}, {replayed, fresh}, {fresh, replayed, fresh}, {replayed}, {fresh, fresh, replayed, replayed}} {
+							ec.process(batch, "batch-with-replayed-piece")
+						}
+						// a proposer's list naming the already slashed pair again, against that batch
+						claim := []*lib.DoubleSigner{{Id: v, Heights: []uint64{hi, hj}}}
+						for _, be := range [][]ev{{fresh, replayed}, {replayed, fresh}} {
+							op := fmt.Sprintf("validate slash=%s be=%s", dsListStr(claim), evsDesc(be))
+							res := guard(func() string {
+								if err := ec.b.ValidateByzantineEvidence(&lib.SlashRecipients{DoubleSigners: claim}, &bft.ByzantineEvidence{DSE: bft.NewDSE(evsReal(be))}); err != nil {
+									return eid(err)
+								}
+								return "ok"
+							})
+							ec.op(op, res)
+							o.Count("validate:replayed-pair:" + strings.SplitN(res, "/", 2)[0])
+							if res == "ok" {
+								ec.oracleImplicated("ValidateByzantineEvidence", claim, op)
+							}
+						}
+						o.Count("scenario:batch-with-replayed-piece")
+						return
+					}
+				}
+			}
+		}
+	}()
+
 	// … time passes: the root chain (and the replica's root height) moves on by more than the unstaking period;
 	// everything accepted before is expired now and must be refused …
 	if len(accepted) > 0 && r.Intn(2) == 0 {
